@@ -124,6 +124,15 @@ func CanonPairs(ps []Pair) string {
 	return b.String()
 }
 
+// spare returns a private copy of s with spare capacity behind it, as a
+// storage that hands out sub-slices of pages or pooled buffers would: code that
+// appends to a returned key / value in place then corrupts visibly.
+func spare(s string) []byte {
+	b := make([]byte, len(s), len(s)+16)
+	copy(b, s)
+	return b
+}
+
 // CanonPairsList renders an ordered list of pairs (duplicates kept).
 func CanonPairsList(ps []Pair) string { return CanonPairs(ps) }
 
@@ -161,9 +170,7 @@ func (s *MemStore) Get(key []byte) ([]byte, error) {
 		return nil, nil
 	}
 	s.log(Op{Kind: "Get", Args: []string{string(key)}, Ret: v})
-	out := make([]byte, len(v))
-	copy(out, v)
-	return out, nil
+	return spare(v), nil
 }
 
 func (s *MemStore) put(k, v string) {
@@ -279,7 +286,7 @@ func (c *cursor) Next() ([]byte, []byte, error) {
 	k, v := c.keys[c.idx], c.vals[c.idx]
 	c.idx++
 	c.s.log(Op{Kind: "Next", Ret: k})
-	return []byte(k), []byte(v), nil
+	return spare(k), spare(v), nil
 }
 
 // Locked is a mutex-protected (thread-safe) wrapper used by the free-running
